@@ -227,9 +227,10 @@ def gating(out, mc):
 def file_gate(out, mc):
     """M-C20-b': LuaDiagnostic::diagnose_file — enable=false and non-main workspaces report nothing"""
     fns = mc.fns("emmylua_code_analysis", r"lua_diagnostic::<impl[^>]*>::diagnose_file\(")
-    if len(fns) != 1:
-        raise RuntimeError("diagnose_file: %d candidates" % len(fns))
-    fn = fns[0]
+    cand = [f for f in fns if f.name.endswith("::diagnose_file")]
+    if len(cand) != 1:
+        raise RuntimeError("diagnose_file: %d candidates" % len(cand))
+    fn = cand[0]
     fields = srcinfo.struct_fields(CA + "/diagnostic/lua_diagnostic.rs", "LuaDiagnostic")
     i_enable = fields.index("enable")
     ex = symex.Executor(fns)
@@ -292,9 +293,10 @@ def file_gate(out, mc):
 def config_plumbing(out, mc):
     """M-C20-d: LuaDiagnosticConfig::new carries diagnostics.disable / enables / severity over unfiltered"""
     fns = mc.fns("emmylua_code_analysis", r"lua_diagnostic_config::<impl[^>]*>::new\(")
-    if len(fns) != 1:
-        raise RuntimeError("LuaDiagnosticConfig::new: %d candidates" % len(fns))
-    fn = fns[0]
+    cand = [f for f in fns if f.name.endswith("::new")]
+    if len(cand) != 1:
+        raise RuntimeError("LuaDiagnosticConfig::new: %d candidates" % len(cand))
+    fn = cand[0]
     rc = srcinfo.struct_fields("/repo/crates/emmylua_code_analysis/src/config/mod.rs", "Emmyrc")
     df = srcinfo.struct_fields("/repo/crates/emmylua_code_analysis/src/config/configs/diagnostics.rs", "EmmyrcDiagnostic")
     i_diag = rc.index("diagnostics")
